@@ -104,6 +104,12 @@ def run(run):
     # callee contract: per-centre RDMs group the events by get_unique_inverse
     from contracts.common import discharge_unique_inverse
     fails += discharge_unique_inverse(run, 'C19')
+    # ... and calc_rdm hands the dataset to the estimator of the method with the method's options (contract generated by C01)
+    from contracts import C01
+    E1 = C01.engine(run)
+    for ck in C01.check_single(run, E1, pid='C19'):
+        fails += ck.failed
+    finish_engine(E1, run)
     run.trust('joblib.Parallel returns results in submission order (assumed contract; real worker schedules cannot be explored)')
     run.trust('scipy cdist(euclidean) = sqrt of the sum of squared differences; np.meshgrid/vstack enumerate the full product of the three filtered ranges')
     finish(run, fails, 'C19')
